@@ -319,10 +319,20 @@ FieldsInSetCanMergeImpl(C) ==
   LET ss == Flatten([i \in 1..Len(Ops(C)) |-> RawSelSets(Ops(C)[i].sels)]) \o Flatten([i \in 1..Len(Frags(C)) |-> RawSelSets(Frags(C)[i].sels)])
   IN IF \E i \in 1..Len(ss) : ImplConflictIn(C, ss[i]) THEN {"FieldsInSetCanMerge"} ELSE {}
 
+\* (evaluation shortcut) a conflict -- of the specification or of the implementation -- needs two field nodes with the
+\* same response key somewhere in the document
+RECURSIVE KeysOf(_)
+KeysOf(sels) == Flatten([i \in 1..Len(sels) |-> IF sels[i].k = "field" THEN <<Key(sels[i])>> \o KeysOf(sels[i].sels)
+                                                 ELSE IF sels[i].k = "inline" THEN KeysOf(sels[i].sels) ELSE <<>>])
+SomeKeyRepeated(C) ==
+  LET ks == Flatten([i \in 1..Len(Ops(C)) |-> KeysOf(Ops(C)[i].sels)]) \o Flatten([i \in 1..Len(Frags(C)) |-> KeysOf(Frags(C)[i].sels)])
+  IN \E i, j \in 1..Len(ks) : i < j /\ ks[i] = ks[j]
+
 \* Known deviations: DevOverlapMissesConflicts (a conflict of the specification that the keyed comparison
 \* does not see is accepted) and DevOverlapFalseConflict (the keyed comparison reports two fields that
 \* the specification lets merge, e.g. under untyped inline fragments nested in different object types).
 FieldsInSetCanMerge(C) ==
+  IF ~SomeKeyRepeated(C) THEN {} ELSE
   LET ideal == FieldsInSetCanMergeIdeal(C) IN
   IF ideal # {} /\ Dev(C, "DevOverlapMissesConflicts") THEN FieldsInSetCanMergeImpl(C)
   ELSE IF ideal = {} /\ Dev(C, "DevOverlapFalseConflict") THEN FieldsInSetCanMergeImpl(C)
